@@ -728,8 +728,8 @@ def run_shard(ctx):
   combos = all_combos() + OVER + TRIPLES
   quick = ctx.tier == 'quick'
   max_pre = 2 if quick else 3
-  cap = 30 if quick else 600
-  n_random = 6 if quick else 60
+  cap = 30 if quick else 140
+  n_random = 6 if quick else 25
   items = []
   # backends interleaved: a run cut short by its time budget loses combos of both evenly
   for ci, (pname, names) in enumerate(combos):
